@@ -360,7 +360,7 @@ def core_program(rng, ticks=True):
     g = Gen(rng, ticks=ticks, derived=False, forbid={"atom-key"})
     top = Scope()
     forms = []
-    templates = rng.sample(["adder", "count", "compose", "varsum", "internal", "apply", "shadowdef", "shadowdef", "shadowparam", "shadowparam", "plain", "plain", "plain"], rng.randint(3, 6))
+    templates = rng.sample(["adder", "count", "compose", "varsum", "internal", "apply", "shadowdef", "shadowdef", "shadowparam", "shadowparam", "collect", "plain", "plain", "plain"], rng.randint(3, 6))
     globals_ = []
     for t in templates:
         if t == "adder":        # closures of order 3
@@ -415,6 +415,16 @@ def core_program(rng, ticks=True):
                 forms.append(define("toplevel-thunk", lam([], [var(gname)], defs=[(gname, quote(vsym("local")))])))
                 forms.append(app("list", app("toplevel-thunk"), var(gname)))
                 top.vars[gname] = "sym"
+        elif t == "collect":
+            # closures made in the iterations of a self-tail-call loop each keep the bindings of THEIR iteration
+            i_, acc_ = rng.sample(NAMES, 2)
+            extra = rng.random() < 0.5
+            body_thunk = lam([], [app("list", var(i_), var("twice"))]) if extra else lam([], [var(i_)])
+            forms.append(define("collect", lam([i_, acc_], [if_(app("=", var(i_), lit(0)), var(acc_),
+                                                           app("collect", app("-", var(i_), lit(1)), app("cons", body_thunk, var(acc_))))],
+                                               defs=([("twice", app("*", lit(2), var(i_)))] if extra else []))))
+            forms.append(app("map", lam(["th"], [app(var("th"))]), app("collect", lit(rng.randint(1, 5)), quote(NIL))))
+            top.vars["collect"] = "opaque"
         elif t == "shadowparam":
             # parameters (fixed and rest) named like top-level variables: binding them on a call - with any number of
             # arguments, zero included - must not touch the top-level bindings, which are read again at the end
@@ -879,7 +889,7 @@ def value_expr(rng, depth):
         if k < 0.2:
             return str(rng.choice([0, 1, -1, 7, -12, 2147483647, -2147483647, -2147483648, 65536, rng.randint(-10**6, 10**6)]))
         if k < 0.35:
-            return rng.choice(["1/2", "-3/4", "7/3", "(/ 1 -2)", "(/ 4 -6)", "(+ 1/4 1/4)", "(/ 2147483647 2)", "(/ -1 32767)", "(* 2/3 3/2)", "(- 1/2 1/2)", "(/ 6 4)"])
+            return rng.choice(["1/2", "-3/4", "7/3", "(/ 1 -2)", "(/ 4 -6)", "(+ 1/4 1/4)", "(/ 2147483647 2)", "(/ -1 32767)", "(/ -2147483648 3)", "-2147483648/2147483647", "(/ 1 2147483647)", "(/ -2147483647 2147483646)", "(- -1073741824/3 1073741824/3)", "(/ -2147483648 2147483647)", "(* 2/3 3/2)", "(- 1/2 1/2)", "(/ 6 4)"])
         if k < 0.6:
             import struct
             c = rng.random()
